@@ -467,13 +467,18 @@ impl Worterbuch {
             EventSender::State(tx.clone()),
             unique,
         );
-        self.subscribers.add_subscriber(&path, subscriber);
-        if !live_only {
-            let matches = match self.get(&key) {
+        let matches = if live_only {
+            None
+        } else {
+            // look the current value up before registering, so that a refused request leaves no subscriber behind
+            match self.get(&key) {
                 Ok(value) => Some(value),
                 Err(WorterbuchError::NoSuchValue(_)) => None,
                 Err(e) => return Err(e),
-            };
+            }
+        };
+        self.subscribers.add_subscriber(&path, subscriber);
+        if !live_only {
             if let Some(value) = matches {
                 tx.send(StateEvent::Value(value))
                     .await
